@@ -61,7 +61,7 @@ Record wset := mk_wset {
 Definition ws_new : wset := mk_wset None None None None None.
 
 Inductive ws_op :=
-| SetVkeys (v : list bytes)             (* the items of a Vkeywitnesses *)
+| SetVkeys (v : list bytes)             (* a Vkeywitnesses filled by add with these elements, repeats allowed (part 1) *)
 | SetNative (l : list bytes)            (* a NativeScripts filled by add, repeats allowed *)
 | SetBoot (b : list bytes)
 | SetPlutus (l : list pscript)
@@ -70,9 +70,10 @@ Inductive ws_op :=
 Definition nonempty {A} (l : list A) : bool := match l with [] => false | _ => true end.
 Definition ws_step_gen (by_ord : bool) (w : wset) (o : ws_op) : wset :=
   match o with
-  | SetVkeys v => if nonempty v then mk_wset (Some v) (ws_native w) (ws_boot w) (ws_plutus w) (ws_data w) else w
+  | SetVkeys l => let v := items (from_vec bytes_eqb l) in
+                  if nonempty v then mk_wset (Some v) (ws_native w) (ws_boot w) (ws_plutus w) (ws_data w) else w
   | SetNative l => if nonempty l then mk_wset (ws_vkeys w) (Some (dedup_clone bytes_eqb l)) (ws_boot w) (ws_plutus w) (ws_data w) else w
-  | SetBoot b => mk_wset (ws_vkeys w) (ws_native w) (Some b) (ws_plutus w) (ws_data w)
+  | SetBoot l => mk_wset (ws_vkeys w) (ws_native w) (Some (items (from_vec bytes_eqb l))) (ws_plutus w) (ws_data w)
   | SetPlutus l => if nonempty l then mk_wset (ws_vkeys w) (ws_native w) (ws_boot w) (Some (dedup_clone pscript_eqb l)) (ws_data w) else w
   | SetData p => if nonempty (pl_elems p) then mk_wset (ws_vkeys w) (ws_native w) (ws_boot w) (ws_plutus w) (Some (plist_dedup_gen by_ord p)) else w
   end.
